@@ -386,6 +386,39 @@ pub fn gen_c04(rng: &mut Rng, thorough: bool) -> Vec<Tagged> {
             out.push((tag, Case::Net(spec, NetCmd::Learn { data, val: None, batch, epochs })));
         }
     }
+    // batches that are fitted exactly (all losses and gradients 0) must still take their step:
+    // with decay / momentum / Adam moments a zero-gradient step is not a no-op
+    let reps2 = if thorough { 60 } else { 10 };
+    for r in 0..reps2 {
+        let n = rng.range(2, 3);
+        let mut spec = NetSpec::new(Sh::Flat(n).to_shape());
+        spec.layers.push(LayerSpec::One(Simple::Dense { out: n, act: Act::Linear, bias: r % 2 == 0, dropout: None }));
+        let mut w = vec![0.0f32; n * n];
+        for i in 0..n {
+            w[i * n + i] = 1.0;
+        }
+        spec.weights = Some(vec![LW::One(W::Dense(t2(n, n, &w), if r % 2 == 0 { Some(t1(vec![0.0; n])) } else { None }))]);
+        spec.opt = match r % 5 {
+            0 => Opt::SGD { lr: 0.1, decay: Some(0.1) },
+            1 => Opt::SGDM { lr: 0.1, momentum: 0.9, dampening: 0.0, decay: None },
+            2 => Opt::AdamW { lr: 0.01, b1: 0.9, b2: 0.999, eps: 1e-8, decay: 0.1 },
+            3 => Opt::Adam { lr: 0.01, b1: 0.9, b2: 0.999, eps: 1e-8, decay: Some(0.1) },
+            _ => Opt::RMS { lr: 0.01, alpha: 0.9, eps: 1e-8, decay: Some(0.1), momentum: Some(0.9), centered: false },
+        };
+        spec.obj = Obj::MSE;
+        let batch = *rng.pick(&[1usize, 2]);
+        let nsamp = rng.range(3, 6);
+        let mut data = vec![];
+        for k in 0..nsamp {
+            let x: Vec<f32> = (0..n).map(|_| rng.sym()).collect();
+            // identity network: target == input is fitted exactly by the initial weights
+            let exact = k < 2 * batch || k % 3 == 0;
+            let t: Vec<f32> = if exact { x.clone() } else { x.iter().map(|v| v + 0.5).collect() };
+            data.push((t1(x), t1(t)));
+        }
+        let epochs = rng.range(2, 3) as i32;
+        out.push((format!("learn-exact-fit-batches-B{}-{}", batch, spec.opt.kind()), Case::Net(spec, NetCmd::Learn { data, val: None, batch, epochs })));
+    }
     out
 }
 
